@@ -152,6 +152,10 @@ func PointGoType(p *sdl.Program, pt *sdl.Point) string {
 		return "any"
 	case sdl.KAnys:
 		return "[]any"
+	case sdl.KApp:
+		return "*app.App"
+	case sdl.KArr:
+		return "[2]" + ifaceRef(p, pt.Iface)
 	}
 	panic("unknown point kind " + pt.Kind)
 }
@@ -189,11 +193,11 @@ func Emit(progs []*sdl.Program) string {
 			}
 		}
 	}
-	b.WriteString("// Code generated by verifsim/gen. DO NOT EDIT.\n\npackage progs\n\nimport (\n\t\"reflect\"\n\n\t\"github.com/go-kid/ioc/container\"\n\t\"github.com/go-kid/ioc/definition\"\n\t\"github.com/go-kid/ioc/syslog\"\n\n")
+	b.WriteString("// Code generated by verifsim/gen. DO NOT EDIT.\n\npackage progs\n\nimport (\n\t\"reflect\"\n\n\t\"github.com/go-kid/ioc/app\"\n\t\"github.com/go-kid/ioc/container\"\n\t\"github.com/go-kid/ioc/definition\"\n\t\"github.com/go-kid/ioc/syslog\"\n\n")
 	if hasAlt {
 		b.WriteString("\taltprogs \"verifbatch/alt/progs\"\n")
 	}
-	b.WriteString("\t\"verifbatch/ifc\"\n\t\"verifsim/simrt\"\n)\n\nvar _ = simrt.ErrInjected\nvar _ syslog.Logger\nvar _ container.Factory\nvar _ definition.PriorityComponent\nvar _ ifc.Marker\n\n")
+	b.WriteString("\t\"verifbatch/ifc\"\n\t\"verifsim/simrt\"\n)\n\nvar _ = simrt.ErrInjected\nvar _ syslog.Logger\nvar _ *app.App\nvar _ container.Factory\nvar _ definition.PriorityComponent\nvar _ ifc.Marker\n\n")
 	var typeNames []string
 	localTypes := map[string]bool{}
 	for _, p := range progs {
